@@ -265,6 +265,90 @@ func runC19(c *Ctx) {
 		SuccessReturnsGuardedLoose(c, r5, commit)
 	}
 	c.Floor(r5, 6)
+
+	// Committing the object overlay copies every pending object: it iterates the temporal storage for AnyObject, or —
+	// if it goes type by type — over a list that names all four object types. A type left out (annotated tags) stays
+	// readable through the overlay until Commit and is gone from the base afterwards, with the reference that points at
+	// it committed.
+	const r6 = "commit-copies-every-object-type"
+	if oc := c.MustFunc(r6, "storage/transactional.(*ObjectStorage).Commit"); oc != nil {
+		info := oc.Pkg.TypesInfo
+		c.Analysed(oc)
+		anyObj := p.lookupObj("plumbing", "AnyObject")
+		all := map[string]bool{"CommitObject": false, "TreeObject": false, "BlobObject": false, "TagObject": false}
+		k := 0
+		walkCalls(oc.Decl.Body, true, func(call *ast.CallExpr) {
+			fn := Callee(info, call)
+			if fn == nil || fn.Name() != "IterEncodedObjects" || len(call.Args) != 1 {
+				return
+			}
+			k++
+			arg := unparen(call.Args[0])
+			if objOfSel(info, arg) == anyObj {
+				for n := range all {
+					all[n] = true
+				}
+				return
+			}
+			if o := objOfSel(info, arg); o != nil {
+				if cst, ok := o.(*types.Const); ok {
+					all[cst.Name()] = true
+					return
+				}
+			}
+			// a range variable over a list of types
+			if v := objOf(info, arg); v != nil {
+				ast.Inspect(oc.Decl.Body, func(n ast.Node) bool {
+					rs, ok := n.(*ast.RangeStmt)
+					if !ok || rs.Value == nil || objOf(info, rs.Value) != v {
+						return true
+					}
+					var lit *ast.CompositeLit
+					if cl, ok := unparen(rs.X).(*ast.CompositeLit); ok {
+						lit = cl
+					} else if lo := objOfSel(info, rs.X); lo != nil {
+						// package-level or local variable initialised with a literal
+						for _, f := range oc.Pkg.Syntax {
+							ast.Inspect(f, func(m ast.Node) bool {
+								if vs, ok := m.(*ast.ValueSpec); ok {
+									for i, nm := range vs.Names {
+										if info.Defs[nm] == lo && i < len(vs.Values) {
+											if cl, ok := unparen(vs.Values[i]).(*ast.CompositeLit); ok {
+												lit = cl
+											}
+										}
+									}
+								}
+								if as, ok := m.(*ast.AssignStmt); ok && len(as.Lhs) == 1 && len(as.Rhs) == 1 && objOf(info, as.Lhs[0]) == lo {
+									if cl, ok := unparen(as.Rhs[0]).(*ast.CompositeLit); ok {
+										lit = cl
+									}
+								}
+								return true
+							})
+						}
+					}
+					if lit != nil {
+						for _, el := range lit.Elts {
+							if o := objOfSel(info, el); o != nil {
+								all[o.Name()] = true
+							}
+						}
+					}
+					return true
+				})
+			}
+		})
+		var missing []string
+		for _, n := range []string{"BlobObject", "TreeObject", "CommitObject", "TagObject"} {
+			if !all[n] {
+				missing = append(missing, n)
+			}
+		}
+		okAll := k > 0 && len(missing) == 0
+		c.Check(okAll, r6, oc.Name(), oc.Decl.Pos(), orStr(ifStr(!okAll, "Commit does not iterate the pending objects of type "+strings.Join(missing, ", ")+": they are readable through the overlay before Commit and missing from the base afterwards"), "every pending object type is copied to the base"))
+	}
+	c.Floor(r6, 1)
 }
 
 // SuccessReturnsGuardedLoose: no `return nil` is reachable while an error from a Commit call is pending:
